@@ -764,12 +764,13 @@ const char *flatcc_json_parser_integer(flatcc_json_parser_t *ctx, const char *bu
     *value_sign = *buf == '-';
     buf += *value_sign;
     while (buf != end && *buf >= '0' && *buf <= '9') {
-        x0 = x;
-        x = x * 10 + (uint64_t)(*buf - '0');
-        if (x0 > x) {
+        x0 = (uint64_t)(*buf - '0');
+        /* x * 10 + x0 must not exceed UINT64_MAX; comparing after the wrap misses most overflows. */
+        if (x > (UINT64_MAX - x0) / 10) {
             return flatcc_json_parser_set_error(ctx, buf, end, value_sign ?
                     flatcc_json_parser_error_underflow : flatcc_json_parser_error_overflow);
         }
+        x = x * 10 + x0;
         ++buf;
     }
     if (buf == k) {
